@@ -8,6 +8,8 @@ REPO=${REPO:-/repo}
 HERE=$(cd "$(dirname "$0")" && pwd)
 OUT=${VERIF_BUILD:-$HERE/../build}/$FLAVOUR
 mkdir -p "$OUT/obj"
+# one build at a time per flavour (checks may run concurrently)
+exec 9>"$OUT/.lock"; flock 9
 case $FLAVOUR in
  hooks)   CC=gcc;   FLAGS="-O2 -g -DSNAPRAID_VERIF";;
  nohooks) CC=gcc;   FLAGS="-O2 -g";;
